@@ -194,6 +194,37 @@ def rich_case(full):
     return h
 
 
+def drawing_case():
+    """an alternatively mapped subclass (Circle) of a normally mapped class (Shape) stored through fields typed with the base class"""
+
+    def h(ctx):
+        pool = [M.Shape(3), M.Circle(0, 5), M.Circle(0, 0)]
+        mi = ctx.choice("main", 4) - 1
+        seq = [[], [1], [0, 1], [1, 2, 1], [2, 0]][ctx.choice("shapes", 5)]
+        root = M.Drawing(7, pool[mi] if mi >= 0 else None, [pool[j] for j in seq])
+        back, actual, expected = persist_and_reload(root, lambda dao: dao.DrawingDAO)
+        ctx.observe(mi, seq)
+        ctx.note("nonempty", 1)
+        if back is None:
+            ctx.observe(actual)
+            return {"root-row-found": False}
+        r, terms = isomorphic(root, back, collections_as_sets=True)
+        if r is not True:
+            ctx.observe(str(r))
+        v = {"restored-graph-isomorphic": r is True}
+        if r is True:
+            v["restored-values-equal"] = AND(terms) if terms else True
+        # a circle is stored through its mapping: one CircleMapped row (and one row in the table of its base) per distinct circle
+        used = {id(o): o for o in ([root.main] if root.main is not None else []) + root.shapes}
+        n_circles = sum(1 for o in used.values() if isinstance(o, M.Circle))
+        v["one-row-per-object"] = actual.get("CircleMappedDAO", 0) == n_circles and actual.get("ShapeDAO", 0) == len(used)
+        if not v["one-row-per-object"]:
+            ctx.observe(actual)
+        return v
+
+    return h
+
+
 def album_case(max_strips):
     """objects whose alternative mapping builds mapped helper objects on the fly (nothing else holds them)"""
 
@@ -278,6 +309,7 @@ def cases(tier, seed):
                 nm = "persist graph|%s|node0=%s,parent0=%d,ref0=%d" % ("alt-mapped Vec targets" if with_vecs else "Leaf/SubLeaf/SubSubLeaf targets", ["Node", "SubNode"][sub0], parent0 - 1, single0 - 1)
                 cs.append(Case(nm + "|n=%d" % n, graph_case(n, with_vecs, fixed, nseq), key=nm, validate=0, timeout=900 if tier == "quick" else 3000, max_paths=300000))
     cs.append(Case("persist rich scalars", rich_case(tier != "quick"), validate=0, timeout=900 if tier == "quick" else 3000))
+    cs.append(Case("persist an alternatively mapped subclass behind base-typed fields", drawing_case(), key="drawing", validate=0, timeout=900))
     cs.append(Case("persist helper objects built by an alternative mapping", album_case(2 if tier == "quick" else 3), key="album", validate=0, timeout=900))
     cs.append(Case("persist short-lived objects converted with one state", streaming_case(3 if tier == "quick" else 4), key="streaming", validate=0, timeout=900))
     return cs
@@ -289,7 +321,7 @@ def describe(tier):
         rule="the C04 graph shapes (bounded symbolic choices, explored exhaustively) with scalar values from small ranges; every path creates a fresh in-memory sqlite "
         "database with krrood's create_engine, adds to_dao(root), commits, opens a NEW session, loads through the root's own DAO class or a DAO base class (a symbolic "
         "choice), calls from_dao and compares: graph isomorphism incl. classes (polymorphic loading), sharing, order of collections, None positions, equal values, and "
-        "row count per table == number of distinct objects of that class. Plus: objects whose alternative mapping builds mapped helper objects on the fly, and several short-lived objects converted one after the other with one conversion state (object ids of dead temporaries are reused by CPython). Distinct = distinct shape vectors; non-trivial = every path persists at least one object",
+        "row count per table == number of distinct objects of that class. Plus: an alternatively mapped subclass of a normally mapped class stored through fields typed with the base class; objects whose alternative mapping builds mapped helper objects on the fly, and several short-lived objects converted one after the other with one conversion state (object ids of dead temporaries are reused by CPython). Distinct = distinct shape vectors; non-trivial = every path persists at least one object",
         bounds=dict(nodes=n, pool=2, scalar_values="2-3 values per field (incl. 0, '', False, empty list)", backend="sqlite in memory"),
         outside=["other database back ends", "symbolic reasoning about SQLAlchemy's unit of work or sqlite (executed, not encoded)", "graphs of more than %d nodes" % n],
         assumptions=["rows are identified by distinct tag values", "the solver's role here is exhaustive, constraint-pruned enumeration of a finite shape space"],
